@@ -196,4 +196,75 @@ theorem src_root_bounds (te : TyEnv) (env : TyP → QTy) :
 
 end SourceTie
 
+/-- by-reference operands are never accepted: there is no impl taking `&Quantity` (so `slice.iter().sum()`,
+    `a + &b`, `a -= &b` cannot combine two temperature points either); the inventory theorem below is what
+    ties "there is no such impl" to the source -/
+theorem by_reference_rejected (e : TyEnv) (A B : QTy) (m : Bool) :
+    accepts e .sumref A B m = false ∧ accepts e .addref A B m = false ∧
+    accepts e .subref A B m = false ∧ accepts e .addaref A B m = false := ⟨rfl, rfl, rfl, rfl⟩
+
+/-! ### tie to the source, closed world: the inventory of `impl` headers regenerated on this run
+
+The acceptance relation above speaks about the impls it knows.  An impl *added* to the macro files (say a
+by-reference `Sum`, a `Product`, an `AddAssign<&Self>`) would open a new way to combine quantities that no
+clause mentions.  `Gen.Sig.implInventory` lists every `impl` header the translator found in
+src/system.rs (with `impl_ops!` inlined), src/quantity.rs and the special impls of src/si, with the
+`D::Kind: marker::M` bounds of its `where` clause.  The theorem: every impl is one the model knows, and it
+carries the marker bound the model expects of it (`none`: comparison / copying / formatting / hashing /
+serialization / the explicit temperature impls / kind conversions need no marker). -/
+section Inventory
+open Uom.Gen.Sig
+
+def mMul := 4
+def mMulAssign := 5
+def mDivAssign := 7
+
+def implRequirement : List (Nat × Option Nat) := [
+  (impl_inherent_Quantity, none), (impl_Clone_for_Quantity, none), (impl_Copy_for_Quantity, none),
+  (impl_Debug_for_Quantity, none), (impl_Default_for_Quantity, none), (impl_Eq_for_Quantity, none),
+  (impl_Hash_for_Quantity, none), (impl_Ord_for_Quantity, none),
+  (impl_PartialEq_Quantity_for_Quantity, none), (impl_PartialEq_for_Quantity, none),
+  (impl_PartialOrd_Quantity_for_Quantity, none), (impl_PartialOrd_for_Quantity, none),
+  (impl_Test_for_Quantity, none), (impl_ConstZero_for_Quantity, none),
+  (impl_Serialize_for_Quantity, none), (impl_Deserialize_for_Quantity, none),
+  (impl_Clone_for_Arguments, none), (impl_Copy_for_Arguments, none), (impl_Clone_for_QuantityArguments, none),
+  (impl_Copy_for_QuantityArguments, none), (impl_style_for_QuantityArguments, none),
+  (impl_From_Quantity_for_Quantity, none),
+  (impl_Add_TemperatureInterval_for_ThermodynamicTemperature, none),
+  (impl_AddAssign_TemperatureInterval_for_ThermodynamicTemperature, none),
+  (impl_Sub_TemperatureInterval_for_ThermodynamicTemperature, none),
+  (impl_SubAssign_TemperatureInterval_for_ThermodynamicTemperature, none),
+  (impl_Add_ThermodynamicTemperature_for_TemperatureInterval, none),
+  (impl_inherent_Angle, none), (impl_inherent_Ratio, none), (impl_From_V_for_Ratio, none), (impl_From_Ratio_for_V, none),
+  (impl_TryFrom_Time_for_Duration, none), (impl_TryFrom_Duration_for_Time, none),
+  (impl_inherent_Units, none), (impl_inherent_quantity, none), (impl_inherent_Arguments, none),
+  (impl_FromStr_for_quantity, none),
+  (impl_Neg_for_Quantity, some mNeg),
+  (impl_Rem_Quantity_for_Quantity, some mRem), (impl_Rem_for_Quantity, some mRem),
+  (impl_RemAssign_Quantity_for_Quantity, some mRemAssign), (impl_RemAssign_for_Quantity, some mRemAssign),
+  (impl_Saturating_for_Quantity, some mSaturating),
+  (impl_Sum_for_Quantity, some mAdd), (impl_Zero_for_Quantity, some mAdd),
+  (impl_Add_Quantity_for_Quantity, some mAdd), (impl_Add_for_Quantity, some mAdd),
+  (impl_AddAssign_Quantity_for_Quantity, some mAddAssign), (impl_AddAssign_for_Quantity, some mAddAssign),
+  (impl_Sub_Quantity_for_Quantity, some mSub), (impl_Sub_for_Quantity, some mSub),
+  (impl_SubAssign_Quantity_for_Quantity, some mSubAssign), (impl_SubAssign_for_Quantity, some mSubAssign),
+  (impl_Mul_Quantity_for_Quantity, some mMul), (impl_Mul_V_for_Quantity, some mMul), (impl_Mul_Quantity_for_V, some mMul),
+  (impl_MulAssign_V_for_Quantity, some mMulAssign),
+  (impl_Div_Quantity_for_Quantity, some mDiv), (impl_Div_V_for_Quantity, some mDiv), (impl_Div_Quantity_for_V, some mDiv),
+  (impl_DivAssign_V_for_Quantity, some mDivAssign)]
+
+def implRowOk (r : Nat × List Nat) : Bool :=
+  match implRequirement.lookup r.1 with
+  | some (some m) => r.2.all (· == m) && !r.2.isEmpty
+  | some none => r.2.isEmpty
+  | none => false
+
+/-- **closed world**: no impl outside the model's list, and each carries exactly the marker bound expected -/
+theorem src_impl_inventory : implInventory.all implRowOk = true := by decide +kernel
+
+/-- non-vacuity: the inventory is not empty and contains the by-value `Sum` with the `Add` marker -/
+example : (impl_Sum_for_Quantity, [mAdd]) ∈ implInventory := by decide +kernel
+
+end Inventory
+
 end Uom.C02
